@@ -1034,6 +1034,7 @@ func init() {
 			f.stop()
 		}
 
+		r.nodeCache(a) // C06: node-cache correspondence lines `nc-…` (s_nodecache.go)
 		// ---- part 1c: directed, on every run: the batches that used to panic inside InsertChain (F7c, repaired in 264f72a) — the
 		//      empty batch; a first unknown momentum at frontier+2 and above (genuine momentums with a gap, and a fabricated one);
 		//      a head claiming height 0; a head claiming height 1 with a hash other than genesis. On a follower in the middle of the
